@@ -30,11 +30,14 @@ class LocalsView:
 class StateView:
     """What loop invariants and postconditions are evaluated over."""
     def __init__(self, ctx, frame, result=None, raised=None, exc=None):
+        # every view is over a SNAPSHOT: quantifier bodies are closures evaluated later, at instantiation
+        # time, and must not see states reached afterwards
         self.ctx = ctx
-        self.l = LocalsView(ctx, ctx.heap, frame.locals)
+        snap = ctx.snapshot()
+        self.l = LocalsView(ctx, snap, dict(frame.locals))
         self.old = LocalsView(ctx, frame.pre_heap, frame.pre_args)
-        self.new = LocalsView(ctx, ctx.heap, frame.pre_args)
-        self.g = ctx.ghost
+        self.new = LocalsView(ctx, snap, frame.pre_args)
+        self.g = dict(ctx.ghost)
         self.g0 = frame.pre_ghost
         self.trace = ctx.trace
         self.result = result
@@ -94,6 +97,8 @@ class Interp:
             if h.kind == 'dict':
                 if 'truthy' in h.fields:
                     return h.fields['truthy'].t
+                if 'keys' in h.fields:
+                    return len(h.fields['keys']) > 0
                 raise Unsupported('truthiness of dict')
             return True
         if isinstance(v, VAny):
@@ -661,8 +666,18 @@ class Interp:
                 ctx.oblige('safe.concat-same-string-type', False, 'safe', 'line %s' % getattr(node, 'lineno', '?'))
                 self.raise_exc('TypeError')
             return VStr(z3.Concat(a.t, b.t), a.kind)
-        if isinstance(a, VStr) and isinstance(op, ast.Mult):
+        if isinstance(a, VStr) and isinstance(op, ast.Mult) and self.is_num(b):
+            z = z3.simplify(a.t)
+            if z3.is_string_value(z) and len(z.as_string()) == 1:
+                F = z3.Function('Repeat', z3.StringSort(), z3.IntSort(), z3.StringSort())
+                r = F(a.t, self.as_int(b))
+                ctx.assume(z3.Length(r) == z3.If(self.as_int(b) > 0, self.as_int(b), 0))
+                return VStr(r, a.kind)
             raise Unsupported('string repetition')
+        if isinstance(a, VObj) and isinstance(op, ast.Mult) and ctx.heap[a.oid].kind == 'list' and self.is_num(b) \
+                and len(ctx.heap[a.oid].fields['items']) == 1:
+            return ctx.alloc(HObj('list', 'replist', {'item': ctx.heap[a.oid].fields['items'][0], 'n': VInt(self.as_int(b))},
+                                  closed=True))
         if isinstance(a, VTuple) and isinstance(b, VTuple) and isinstance(op, ast.Add):
             return VTuple(a.items + b.items)
         if isinstance(a, VObj) and isinstance(b, VObj) and isinstance(op, ast.Add):
@@ -754,6 +769,8 @@ class Interp:
 
     def index(self, base, idx, node=None, fr=None):
         base = self.unopt(base, 'subscript base')
+        if type(base).__name__ == 'VRow':
+            return self.reg.heap_hook('grid').row_get(self, base, idx, node)
         if isinstance(base, VStr):
             return self.str_index(base, idx)
         if isinstance(base, VTuple):
@@ -844,6 +861,10 @@ class Interp:
             raise Unsupported('list comprehension form')
         g = node.generators[0]
         it = self.eval(g.iter, fr)
+        if isinstance(it, VObj) and self.ctx.heap[it.oid].kind in ('range', 'grid'):
+            special = self.listcomp_symbolic(node, g, it, fr)
+            if special is not None:
+                return special
         items = self.concrete_items(it)
         out = []
         sub = Frame(fr.fi, fr.module, fr.cls, {}, fr.con, closure=fr)
@@ -853,6 +874,35 @@ class Interp:
         return self.ctx.alloc(HObj('list', 'list', {'items': out}, closed=True))
 
     e_GeneratorExp = e_ListComp
+
+    def listcomp_symbolic(self, node, g, it, fr):
+        """[[X] * n for _ in range(m)]  ->  grid;   [''.join(row) for row in GRID]  ->  row texts"""
+        ctx = self.ctx
+        h = ctx.heap[it.oid]
+        hook = self.reg.heap_hook('grid')
+        sub = Frame(fr.fi, fr.module, fr.cls, {}, fr.con, closure=fr)
+        if h.kind == 'range':
+            lo, hi = z3.simplify(h.fields['lo'].t), z3.simplify(h.fields['hi'].t)
+            if z3.is_int_value(lo) and z3.is_int_value(hi):
+                return None
+            if isinstance(g.target, ast.Name):
+                sub.locals[g.target.id] = VInt(ctx._const('compvar', z3.IntSort()))
+            elt = self.eval(node.elt, sub)
+            if isinstance(elt, VObj) and ctx.heap[elt.oid].kind == 'replist':
+                eh = ctx.heap[elt.oid]
+                item = eh.fields['item']
+                if isinstance(item, VStr):
+                    return hook.from_template(self, z3.simplify(hi - lo), item, eh.fields['n'].t)
+            raise Unsupported('list comprehension over a symbolic range')
+        # over a grid
+        from .grid import VRow
+        k = ctx._const('comprow', z3.IntSort())
+        self.assign(g.target, VRow(it.oid, k), sub)
+        elt = self.eval(node.elt, sub)
+        expect = hook.row_text(self, VRow(it.oid, k))
+        if isinstance(elt, VStr) and elt.t.eq(expect.t):
+            return ctx.alloc(HObj('list', 'rowtexts', {'grid': dict(h.fields)}, closed=True))
+        raise Unsupported('list comprehension over the grid')
 
     def concrete_items(self, it):
         if isinstance(it, VTuple):
@@ -990,6 +1040,9 @@ class Interp:
         return self.apply_contract(con, bound, fr, '%s.%s' % (f.cls, f.name))
 
     def call_extern(self, name, args, kwargs, fr):
+        if name == 'copy.deepcopy' and len(args) == 1 and isinstance(args[0], VObj) \
+                and self.ctx.heap[args[0].oid].kind == 'grid':
+            return self.reg.heap_hook('grid').deepcopy(self, args[0])
         con = self.reg.extern_contract(name)
         if con is None:
             raise Unsupported('external call %s has no assumed contract' % name)
@@ -1018,7 +1071,8 @@ class Interp:
         ctx = self.ctx
         pre_heap = ctx.snapshot()
         pre_ghost = dict(ctx.ghost)
-        pre = ContractView(ctx, pre_heap, ctx.heap, bound, pre_ghost)
+        pre = ContractView(ctx, pre_heap, pre_heap, bound, pre_ghost)
+        pre.g = dict(pre_ghost)
         short = what.split('.')[-1]
         for cid, f in con.requires(pre):
             ctx.oblige('pre@call.%s.%s' % (short, cid), f, 'pre@call', what)
@@ -1033,15 +1087,23 @@ class Interp:
         else:
             raised = out.exc
             excv = ctx.new_exc(out.exc, [])
-        post = ContractView(ctx, pre_heap, ctx.heap, bound, pre_ghost, result=to_spec(ctx, ctx.heap, result),
+        post_heap = ctx.snapshot()
+        post = ContractView(ctx, pre_heap, post_heap, bound, pre_ghost, result=to_spec(ctx, post_heap, result),
                             raised=raised, label=out.label, result_v=result, exc=excv)
         post.what = short
         post.interp = self
-        con.effects(post)
+        con.effects(post)               # may update the live ghost state (post.g is ctx.ghost here)
+        post.g = dict(ctx.ghost)        # ... and from here on the view is frozen
         for cid, f in con.ensures(post):
             ctx.assume_spec(f)
+        site = '%s@%s' % (what, getattr(fr.fi, 'qual', '?') if fr is not None and fr.fi is not None else '?')
+        st = ctx.callsites.setdefault(site, [0, 0])
+        st[0] += 1
+        if (ctx.qhyps or ctx.qhyps2):
+            ctx.instantiate([])
         if not ctx.feasible():
             raise Infeasible()
+        st[1] += 1
         ctx.path_tags.append(('outcome:' + what, out.label))
         if out.kind == 'raise':
             raise PyExc(excv)
@@ -1050,6 +1112,11 @@ class Interp:
     def havoc_field(self, view, field, ty, what):
         ctx = self.ctx
         h = ctx.heap[view._oid]
+        if h.kind == 'grid':
+            from .grid import CellArr, IntArr
+            h.fields[field] = z3.Const(ctx.fresh_name('%s.%s' % (what.split('.')[-1], field)),
+                                       CellArr if field == 'cell' else IntArr)
+            return
         if h.kind == 'io' and field in ('content', 'pos'):
             old = h.fields[field]
             h.fields[field] = ctx.fresh(TStr(old.kind) if field == 'content' else T.Int, '%s.%s' % (what.split('.')[-1], field))
@@ -1134,6 +1201,8 @@ class Interp:
             return
         if isinstance(target, ast.Subscript):
             base = self.eval(target.value, fr)
+            if type(base).__name__ == 'VRow':
+                return self.reg.heap_hook('grid').row_set(self, base, self.eval(target.slice, fr), v, target)
             if isinstance(base, VObj):
                 h = ctx.heap[base.oid]
                 hook = self.reg.heap_hook(h.kind)
@@ -1369,8 +1438,6 @@ class Interp:
         for gname, ty in gh.items():
             ctx.ghost[gname] = to_spec(ctx, ctx.heap, ctx.fresh(ty, '%s.g.%s' % (lid, gname)))
         sv2 = StateView(ctx, fr)
-        sv2.l = LocalsView(ctx, ctx.snapshot(), dict(fr.locals))
-        sv2.g = dict(ctx.ghost)
         sv2.entry = sv.entry
         sv2.iter = iterable
         for cid, f in spec.invariant(sv2):
@@ -1399,6 +1466,7 @@ class Interp:
             if hasattr(spec, 'ghost_step'):
                 sv_end = StateView(ctx, fr)
                 sv_end.entry = sv.entry
+                sv_end.g = ctx.ghost           # live: the ghost step updates it
                 spec.ghost_step(sv2, sv_end)
             sv3 = StateView(ctx, fr)
             sv3.entry = sv.entry
@@ -1413,6 +1481,8 @@ class Interp:
 
     def iter_start(self, it):
         if isinstance(it, VObj) and self.ctx.heap[it.oid].kind == 'range':
+            if self.ctx.heap[it.oid].fields.get('step', 1) == -1:
+                return z3.IntVal(0)
             return self.ctx.heap[it.oid].fields['lo'].t
         return z3.IntVal(0)
 
@@ -1422,6 +1492,8 @@ class Interp:
             if h.kind == 'symlist':
                 return z3.IntVal(0), h.fields['len'].t
             if h.kind == 'range':
+                if h.fields.get('step', 1) == -1:
+                    return z3.IntVal(0), z3.simplify(h.fields['lo'].t - h.fields['hi'].t)
                 return h.fields['lo'].t, h.fields['hi'].t
             if h.kind == 'enumerate':
                 return self.iter_bounds(h.fields['inner'])
@@ -1437,6 +1509,8 @@ class Interp:
             if h.kind == 'symlist':
                 return symlist_elem(h, i)
             if h.kind == 'range':
+                if h.fields.get('step', 1) == -1:
+                    return VInt(z3.simplify(h.fields['lo'].t - i))
                 return VInt(i)
             if h.kind == 'enumerate':
                 return VTuple([VInt(i), self.iter_elem(h.fields['inner'], i)])
